@@ -262,3 +262,36 @@ Theorem C01_code_maximum_over_continuous_choices : forall (u : arr val) (f : arr
   (M = VNegInf \/ exists idx, in_bounds (shape u) idx /\ get false f idx = true /\ get VUndef u idx = M).
 Proof. exact stored_maximum_is_max_over_feasible. Qed.
 Print Assumptions C01_code_maximum_over_continuous_choices.
+
+(* ---- THE MAXIMISATION OF THE CODE IS THE MAXIMISATION OF THE SPECIFICATION ------------------------ *)
+From Coq Require Import Permutation.
+From LCM Require Import Gen.DiscreteNoShocks Proofs.C01_MaxCompose.
+(* The entry the regenerated reductions compute for a state -- for every combination of the discrete  *)
+(* choices (axes of cc) the regenerated compute_ccv of the utility / feasibility arrays over the       *)
+(* continuous choice grid, then the regenerated no-shock reduction over the discrete choice axes --     *)
+(* is the specification's value_at of that state (the maximum over all admissible grid choices, -inf    *)
+(* without one), whatever the declaration order of the choices; provided every entry of the arrays      *)
+(* holds the specification's feasibility / objective of the choice it stands for (which is the          *)
+(* step theorem above plus C19's entry theorem for the two product maps).                                *)
+Theorem C01_code_maximisation_is_the_specifications :
+  forall (m : model) (p : params) (t : nat) (last : bool) (vnext : list nat -> val) (sigma : env)
+         (dch cch : list (string * grid)),
+  Permutation (dch ++ cch) (choices m) -> NoDup (map fst (choices m)) ->
+  forall (cc : arr val) (axes keep : list nat),
+  let mask := axis_mask (length (shape cc)) axes in
+  let dshape := map (fun sg : string * grid => grid_size (snd sg)) dch in
+  let cshape := map (fun sg : string * grid => grid_size (snd sg)) cch in
+  in_bounds (select_mask mask (shape cc) false) keep ->
+  select_mask mask (shape cc) true = dshape ->
+  forall (U : list nat -> list nat -> val) (Fm : list nat -> list nat -> bool),
+  (forall red, in_bounds dshape red ->
+     get VUndef cc (interleave mask keep red) = compute_ccv (tabulate cshape (U red)) (tabulate cshape (Fm red))) ->
+  (forall red cidx, in_bounds dshape red -> in_bounds cshape cidx ->
+     let e := (sigma ++ (env_of_idx dch red ++ env_of_idx cch cidx) ++ [(period_name, Qofnat t)])%list in
+     Fm red cidx = feasible m p e /\ (feasible m p e = true -> veq (U red cidx) (objective m p last vnext e))) ->
+  veq (get VUndef (solve_discrete_problem_no_shocks cc (Some axes) None tt) keep) (value_at m p t last vnext sigma).
+Proof.
+  intros m p t last vnext sigma dch cch H1 H2 cc axes keep mask dshape cshape H3 H4 U Fm H5 H6.
+  exact (solved_entry_is_the_specifications_value m p t last vnext sigma dch cch H1 H2 cc axes keep H3 H4 U Fm H5 H6).
+Qed.
+Print Assumptions C01_code_maximisation_is_the_specifications.
